@@ -848,7 +848,7 @@ func (g *Gen) applyContract(fc *FuncContract, pc *PkgContracts, pkg *types.Packa
 		cell(p)
 		if callerPc := pc; callerPc != nil {
 			tn := g.typeName(pt.Elem())
-			for _, gf := range callerPc.GhostFields {
+			for _, gf := range g.allGhostFields() {
 				if gf.Struct == tn || lastPkgElem(gf.Struct) == tn {
 					gt := g.resolveType(&Env{pkg: pkg, pc: pc}, gf.Type)
 					cell(Ptr{Prefix: p.Prefix + ".ghost:" + gf.Name, Idx: p.Idx, T: gt})
